@@ -67,15 +67,18 @@ def classify_problem(r, text, structured):
 
 
 def make_packs(cases, macroset=None):
+    """Cases are dealt round-robin onto the files of their mode, so that every file holds the whole variety of the
+    enumeration (real statements next to every kind of decoy, every layout, ...) rather than one homogeneous stretch of it."""
     bymode = {"structured": [], "unstructured": []}
     for c in cases:
         bymode[c["mode"]].append(c)
     packs = []
     uid = 1000
     for mode, cs in bymode.items():
-        for i in range(0, len(cs), PACK):
-            pk = st.Pack("p_%s_%d.rs" % (mode[0], i // PACK), bom=((i // PACK) % 4 == 1), crlf=((i // PACK) % 3 == 2))
-            for c in cs[i:i + PACK]:
+        npacks = (len(cs) + PACK - 1) // PACK
+        for k in range(npacks):
+            pk = st.Pack("p_%s_%d.rs" % (mode[0], k), bom=(k % 4 == 1), crlf=(k % 3 == 2))
+            for c in cs[k::npacks]:
                 uid += 1
                 pk.add(st.render_case(c, uid, macroset=macroset))
             pk.finish()
